@@ -51,6 +51,15 @@ func (v *VerifSender) Accept(ctx context.Context, p string) {
 	v.S.maybeStartTransfers(ctx)
 }
 func (v *VerifSender) Leave(p string) { v.S.handlePeerLeft(p) }
+
+// Enqueue is the read loop's handling of manifest_accept without the dispatch that follows it.
+func (v *VerifSender) Enqueue(p string) { v.S.handleManifestAccept(p, protocol.ManifestAccept{}) }
+
+// Dispatch is one call of the scheduler loop.
+func (v *VerifSender) Dispatch(ctx context.Context) { v.S.maybeStartTransfers(ctx) }
+
+// SetOnChange installs the state-change callback (the CLI installs its status logger there).
+func (v *VerifSender) SetOnChange(f func()) { v.S.onChange = f }
 func (v *VerifSender) Cleanup()       { v.S.cleanup() }
 
 type VerifSenderSnap struct {
